@@ -9,7 +9,8 @@ set -u
 export GOFLAGS=-mod=mod GOPROXY=off GOSUMDB=off GOTOOLCHAIN=local
 ID="$1"; M="$2"; shift 2
 CHECKS=("$@"); [ ${#CHECKS[@]} -eq 0 ] && CHECKS=("$ID")
-SRC="/tmp/seed/$ID/out"
+SRC="${SEED_ROOT:-/tmp/seed}/$ID/out"
+STORE="${STORE_AS:-$M}"
 PATCH="$SRC/$M.diff"; DEMO="$(ls "$SRC"/${M}_demo*.go 2>/dev/null | head -1)"
 [ -f "$PATCH" ] && [ -n "$DEMO" ] || { echo "SEED $ID $M: missing patch or demo"; exit 2; }
 pkg="$(grep -m1 '^package ' "$DEMO" | awk '{print $2}')"
@@ -39,9 +40,9 @@ for id in "${CHECKS[@]}"; do
   echo "$out" > "$W/check-$id.log"
 done
 if [ $clean_ok = 1 ] && [ $build_ok = 1 ] && [ $tests_ok = 1 ] && [ $fails -ge 2 ]; then
-  D="/verif/seeded/$ID-$M"; mkdir -p "$D"
-  cp "$PATCH" "$D/patch.diff"; cp "$DEMO" "$D/$(basename "$DEMO")"
-  python3 - "$ID" "$M" "$dir" "$caught" "$W" "${CHECKS[*]}" <<'PY'
+  D="/verif/seeded/$ID-$STORE"; mkdir -p "$D"
+  cp "$PATCH" "$D/patch.diff"; cp "$DEMO" "$D/${STORE}_demo_test.go"; [ -f "$SRC/README.md" ] && cp "$SRC/README.md" "$D/AUTHOR_README.md"
+  python3 - "$ID" "$STORE" "$dir" "$caught" "$W" "${CHECKS[*]}" <<'PY'
 import json,sys,os,re,glob
 ID,M,d,caught,W,checks=sys.argv[1:7]
 res={}
